@@ -5,6 +5,15 @@ var targetFile = map[string]string{
 	"GetSystemErrorCode": "GenRetry",
 	"getErrCode":         "GenRetry",
 	"CanRetry":           "GenRetry",
+	"SetPayloadSize":     "GenFrame",
+	"PayloadSize":        "GenFrame",
+	"finishesCall":       "GenFrame",
+	"frameTypeFor":       "GenFrame",
+	"isMessageTypeCall":  "GenFrame",
+	"hasMoreFragments":   "GenFrame",
+	"isCallResOK":        "GenFrame",
+	"ChecksumSize":       "GenFrame",
+	"poolIndex":          "GenFrame",
 }
 
 // varFields: constant fields of package-level composite-literal variables.
@@ -13,8 +22,8 @@ var varFields = [][2]string{
 }
 
 var errHints = map[string]string{
-	"err == nil":       "(e_nil err)",
-	"isNetError(err)":  "(e_net err)",
+	"err == nil":      "(e_nil err)",
+	"isNetError(err)": "(e_net err)",
 }
 
 func merge(ms ...map[string]string) map[string]string {
@@ -46,4 +55,22 @@ var targets = []Target{
 		Func: "RetryOn.CanRetry", Out: "CanRetry", Params: "(r : Z) (err : goerr)", Ret: "bool",
 		Hints: merge(errHints, map[string]string{"call:getErrCode": "getErrCode"}),
 	},
+	// frame.go: uint16 arithmetic on the header size field
+	{Func: "FrameHeader.SetPayloadSize", Out: "SetPayloadSize", Params: "(size : Z)", Ret: "Z", AssignRet: "fh.size"},
+	{Func: "FrameHeader.PayloadSize", Out: "PayloadSize", Params: "(fh_size : Z)", Ret: "Z",
+		Hints: map[string]string{"fh.size": "fh_size"}},
+	// relay_messages.go / relay.go / connection.go: frame classification
+	{Func: "finishesCall", Out: "finishesCall", Params: "(mt : Z) (flags : Z)", Ret: "bool",
+		Hints: map[string]string{"f.messageType()": "mt", "f.Payload[_flagsIndex]": "flags"}},
+	{Func: "hasMoreFragments", Out: "hasMoreFragments", Params: "(flags : Z)", Ret: "bool",
+		Hints: map[string]string{"f.Payload[_flagsIndex]": "flags"}},
+	{Func: "isCallResOK", Out: "isCallResOK", Params: "(code : Z)", Ret: "bool",
+		Hints: map[string]string{"f.Payload[_resCodeIndex]": "code"}},
+	{Func: "frameTypeFor", Out: "frameTypeFor", Params: "(mt : Z)", Ret: "option Z", Panics: true,
+		Hints: map[string]string{"f.Header.messageType": "mt"}},
+	{Func: "isMessageTypeCall", Out: "isMessageTypeCall", Params: "(mt : Z)", Ret: "bool",
+		Hints: map[string]string{"frame.Header.messageType": "mt"}},
+	// checksum.go
+	{Func: "ChecksumType.ChecksumSize", Out: "ChecksumSize", Params: "(t : Z)", Ret: "Z",
+		Hints: map[string]string{"crc32.Size": "4"}},
 }
